@@ -144,7 +144,8 @@ pub fn install_quiet_panic_hook() {
             "<non-string panic>".to_string()
         };
         let text = format!("{} {}", loc, msg);
-        if std::env::var_os("HSV_PANIC_STDERR").is_some() {
+        // a panic located in the harness's own sources (relative path) is a harness bug: always show it
+        if std::env::var_os("HSV_PANIC_STDERR").is_some() || loc.starts_with("src/") {
             eprintln!("panic: {}", text);
         }
         let _ = LAST_PANIC.try_with(|p| *p.borrow_mut() = Some(text));
